@@ -34,7 +34,9 @@ def litTypeC (v : Nat) (hex : Bool) (suffix : String) : CT :=
 /-- The type the code gives a literal: by the suffix only (`get_value_type_by_c_number`). -/
 def litTypeCode (suffix : String) : CT :=
   match suffix with
-  | "" => ⟨true, 32⟩ | "U" => ⟨false, 32⟩ | "LL" => ⟨true, 64⟩ | _ => ⟨false, 64⟩
+  | "" => ⟨true, 32⟩ | "U" => ⟨false, 32⟩ | "LL" => ⟨true, 64⟩
+  | "SZ" => ⟨true, 32⟩     -- `sizeof(x)`: the code's `Sizeof` is a LetVar of type st32; C gives it `size_t` (`litTypeC`: 64 bit unsigned)
+  | _ => ⟨false, 64⟩
 
 def typeOfC : CExpr → CT
   | .reg _ _ t => t
